@@ -34,6 +34,13 @@ def P(**kw):
     return {k: str(v) for k, v in d.items()}
 
 
+def _pfind(find, jobs):
+    """runs independent find() scans concurrently; jobs = list of (args, kwargs); results in the same order"""
+    import concurrent.futures as cf
+    with cf.ThreadPoolExecutor(max_workers=16) as ex:
+        return list(ex.map(lambda j: find(*j[0], **j[1]), jobs))
+
+
 def _limits(tier):
     return dict(max_paths=1500, max_secs=20) if tier == "quick" else dict(max_paths=40000, max_secs=600)
 
@@ -92,11 +99,12 @@ def _dd_bundles(tier, seed, find, props, comps, widths_small, extra_fams=True, d
     # (nothing is found on a tree where the property holds; the scan only chooses WHERE the solver looks)
     nscan = 500 if tier == "quick" else 3000
     scan_fams = [dict(n=4, b=3, d=2, setnext=1), dict(n=5, b=2, d=2, setnext=1), dict(n=4, b=3, d=2, setnext=1, long_arcs=1, depth_free=1), dict(n=4, b=2, d=2, setnext=1, bonus=1, perm=1)]
-    for fam in scan_fams:
-        for dd in dds:
-            for comp in comps:
-                for w in (1, 2):
-                    hits = find([], fam, 2, base + 1, dyn=dict(notes="VIOLATION", dd=dd, comp=comp, width=w, roots=0, props=props, tries=5), count=nscan)
+    scan_keys = [(fam, dd, comp, w) for fam in scan_fams for dd in dds for comp in comps for w in (1, 2)]
+    scan_hits = _pfind(find, [(([], fam, 2, base + 1), dict(dyn=dict(notes="VIOLATION", dd=dd, comp=comp, width=w, roots=0, props=props, tries=5), count=nscan)) for (fam, dd, comp, w) in scan_keys])
+    for (fam, dd, comp, w), hits in zip(scan_keys, scan_hits):
+        if True:
+            if True:
+                if True:
                     for s in hits:
                         i += 1
                         b = dict(kind="dd", dd=dd, comp=comp, seed=s, width=str(w), roots="0", rub="none", lb="none", hist=0, rev=0, props=props, nsym=8, **fam, **lim)
@@ -187,11 +195,13 @@ def _solve_bundles(tier, seed, find, props, modes, fams=None, dds=DD3, caches=("
     if "plain" in modes:
         nscan = 300 if tier == "quick" else 2000
         scan_fams = [dict(n=4, b=3, d=2, setnext=1), dict(n=5, b=2, d=2, setnext=1, depth_free=1), dict(n=4, b=3, d=2, setnext=1, long_arcs=1, depth_free=1)]
-        for fam in scan_fams:
-            for dd in dds:
-                for ca in caches:
-                    for fr in fringes:
-                        for s in find([], fam, 1, base + 1, dyn=dict(_solve=True, notes="VIOLATION", dd=dd, cache=ca, fringe=fr, width=1, tries=4), count=nscan):
+        scan_keys = [(fam, dd, ca, fr) for fam in scan_fams for dd in dds for ca in caches for fr in fringes]
+        scan_hits = _pfind(find, [(([], fam, 1, base + 1), dict(dyn=dict(_solve=True, notes="VIOLATION", dd=dd, cache=ca, fringe=fr, width=1, tries=4), count=nscan)) for (fam, dd, ca, fr) in scan_keys])
+        for (fam, dd, ca, fr), hits in zip(scan_keys, scan_hits):
+            if True:
+                if True:
+                    if True:
+                        for s in hits:
                             i += 1
                             out.append(P(kind="solve", dd=dd, cache=ca, fringe=fr, width="1", mode="plain", seed=s, rub="none", rev=0, sym_init=0, warm=0, kmax=kmax, props=props, nsym=6, **fam, **lim))
     for fi, fam in enumerate(fams):
@@ -468,11 +478,13 @@ def plan(prop, tier, seed, find):
                     i += 1
                     b.append(P(kind="solve", dd=dd, cache=ca, fringe=("nodup" if i % 3 == 0 else "simple"), width="1,2,3", mode="plain", seed=s, rub="none", rev=i % 2, perm=(i // 2) % 2, props="C15,C02", **f, **lim))
         # probe-directed: structures on which a concrete probe run of the pooled solver already misbehaves (budget, wrong value)
-        for famx in (fam, fam4, dict(n=5, b=2, d=2, setnext=1, long_arcs=1, depth_free=1, nsym=7)):
-            for ca in ("0", "1"):
-                for w in (1, 2):
-                    for fr in ("simple", "nodup"):
-                        for s in find([], {k: v for k, v in famx.items() if k != "nsym"}, 2, base + 1, dyn=dict(_solve=True, notes="VIOLATION", dd="pooled", cache=ca, fringe=fr, width=w, tries=4), count=(600 if tier == "quick" else 4000)):
+        scan_keys = [(famx, ca, w, fr) for famx in (fam, fam4, dict(n=5, b=2, d=2, setnext=1, long_arcs=1, depth_free=1, nsym=7)) for ca in ("0", "1") for w in (1, 2) for fr in ("simple", "nodup")]
+        scan_hits = _pfind(find, [(([], {k: v for k, v in famx.items() if k != "nsym"}, 2, base + 1), dict(dyn=dict(_solve=True, notes="VIOLATION", dd="pooled", cache=ca, fringe=fr, width=w, tries=4), count=(600 if tier == "quick" else 4000))) for (famx, ca, w, fr) in scan_keys])
+        for (famx, ca, w, fr), hits in zip(scan_keys, scan_hits):
+            if True:
+                if True:
+                    if True:
+                        for s in hits:
                             b.append(P(kind="solve", dd="pooled", cache=ca, fringe=fr, width=str(w), mode="plain", seed=s, rub="none", rev=0, props="C15,C02", **famx, **lim))
         # parallel pooled solver on long-arc models (scheduled)
         limp = dict(max_paths=800, max_secs=15) if tier == "quick" else dict(max_paths=30000, max_secs=900)
